@@ -580,6 +580,9 @@ func runC20(p *core.Prog, r *core.Report) {
 			}
 			f := sx.FieldOf(fa)
 			switch f.Name() {
+			case "Args", "Path":
+				// the re-executed program finds itself through os.Args[0]: argv[0] (and Path) stay what exec.Command made them
+				r.Fail("C20-R3", fnName(fn)+": the re-executed command keeps its argv[0] and path", p.Pos(in.Pos()), "cmd."+f.Name()+" is overwritten with "+short(sx.ValPath(st.Val))+": inside the re-executed process os.Args[0] is no longer the program's path, so a Launch issued from a daemon (or the launcher starting the daemon) cannot re-execute the program")
 			case "Dir":
 				// the command is os.Args[0], possibly a relative path: os/exec resolves it against Dir
 				r.Check(sx.IsNilConst(st.Val) || func() bool { k, ok := sx.ConstString(st.Val); return ok && k == "" }(), "C20-R3", fnName(fn)+": the re-executed command keeps the caller's working directory", p.Pos(in.Pos()), "cmd.Dir left empty", "cmd.Dir is set to "+short(sx.ValPath(st.Val))+" while the command is os.Args[0]: a program started through a relative path (./app) can no longer be found — Launch fails (or starts another file) although the handler is registered")
@@ -605,8 +608,20 @@ func runC20(p *core.Prog, r *core.Report) {
 				okEnv, why := false, "cmd.Env is not built by appending to a fresh os.Environ()"
 				if c, ok := st.Val.(*ssa.Call); ok && isBuiltin(c, "append") {
 					base := sx.Unspill(c.Call.Args[0])
+					// append(append(make([]string, 0, n), os.Environ()...), …): peel the chain down to its first operand
+					for d := 0; d < 6; d++ {
+						if inner, ok := base.(*ssa.Call); ok && isBuiltin(inner, "append") {
+							base = sx.Unspill(inner.Call.Args[0])
+						}
+					}
 					if bc, ok := base.(*ssa.Call); ok && sx.CalleeName(bc) == "os.Environ" && bc.Parent() == fn {
 						okEnv = true
+					} else if ms, ok := base.(*ssa.MakeSlice); ok && ms.Parent() == fn {
+						okEnv = true // a slice made for this call
+					} else if sl, ok := base.(*ssa.Slice); ok {
+						if al, ok := sl.X.(*ssa.Alloc); ok && al.Parent() == fn {
+							okEnv = true // make with constant sizes: a fresh array of this call
+						}
 					} else {
 						why = "cmd.Env is appended to " + short(sx.ValPath(c.Call.Args[0])) + " (" + keys(sx.Origins(c.Call.Args[0])) + "), a slice that outlives the call: concurrent Launch calls append into the same spare capacity and start each other's handler"
 					}
